@@ -637,3 +637,63 @@ async fn idle_bound_preempted_dial() {
     assert!(n <= 1, "pool holds {n} idle connections for one origin, limit is 1");
     std::mem::forget(got);
 }
+
+/// A.pool.many_origins [C06] (bounded stand-in, see A.tokenmap.insert): a long-lived pool that has seen many distinct
+/// origins never gives a new origin a connection that belongs to an earlier one (tokens are not reissued while the
+/// pool still holds state under them). Bound: 1300 origins, the first few keep an idle connection.
+#[tokio::test]
+async fn standin_many_origins() {
+    let pool: TPool = Pool::new(cfg_bg(false));
+    let mut seen: std::collections::HashMap<usize, usize> = Default::default();
+    for i in 0..1300usize {
+        let key: key::UriKey = (http::uri::Scheme::HTTPS, format!("host-{i}.example:8080").parse::<http::uri::Authority>().unwrap()).into();
+        let got = tokio::time::timeout(Duration::from_secs(2), pool.checkout(key, false, test_connector(MockTransport::single(), HttpProtocol::Http1))).await
+            .expect("checkout hangs").expect("checkout fails");
+        if let Some(prev) = seen.insert(got.id(), i) {
+            panic!("the first request for origin {i} was sent on connection {} which was opened for origin {prev}", got.id());
+        }
+        if i < 8 {
+            drop(got); // stays idle in the pool under its origin's token
+            for _ in 0..3 { tokio::task::yield_now().await; }
+        } else {
+            std::mem::forget(got);
+        }
+    }
+}
+
+/// push.idle_bound with expired entries in the list [C15]: entries that outlived the idle timeout still occupy a slot
+/// until they are removed
+#[tokio::test]
+async fn idle_bound_with_expired_entries() {
+    let mut c = cfg(1);
+    c.idle_timeout = Some(Duration::from_millis(40));
+    let pool: TPool = Pool::new(c);
+    let t = pool.keys.lock().insert(example_key());
+    pool.inner.lock().push(t, TestConn::h1(), pool.as_ref());
+    std::thread::sleep(Duration::from_millis(120)); // the idle entry expires; nobody pops it
+    for _ in 0..3 {
+        pool.inner.lock().push(t, TestConn::h1(), pool.as_ref());
+        let n = pool.inner.lock().idle.get(&t).map(raw_len).unwrap_or(0);
+        assert!(n <= 1, "pool retains {n} idle connections for one origin, max_idle_per_host = 1");
+    }
+}
+
+/// A.cdrop.contention [C03] (bounded stand-in for `PinnedDrop for Checkout`): a cancelled HTTP/2 request whose drop
+/// runs while another thread holds the pool lock still clears its in-flight marker - later requests complete
+#[tokio::test(flavor = "multi_thread", worker_threads = 2)]
+async fn standin_cdrop_under_contention() {
+    let pool = Pool::new(cfg_bg(false));
+    let key = example_key();
+    let (_tx, rx) = tokio::sync::oneshot::channel::<MockStream>();
+    let mut a = Box::pin(pool.checkout(key.clone(), true, h2_connector(MockTransport::channel(rx))));
+    assert!(futures_util::poll!(&mut a).is_pending());
+    let token = a.token();
+    let guard = pool.inner.lock(); // somebody else is using the pool right now
+    let dropper = std::thread::spawn(move || drop(a));
+    std::thread::sleep(Duration::from_millis(100));
+    drop(guard);
+    dropper.join().unwrap();
+    assert!(!pool.inner.lock().connecting.contains(&token), "in-flight marker left behind: the checkout was dropped while the pool lock was held elsewhere");
+    let c = tokio::time::timeout(Duration::from_secs(2), pool.checkout(key.clone(), true, h2_connector(MockTransport::reusable()))).await;
+    assert!(matches!(c, Ok(Ok(_))), "request after a cancelled one did not complete");
+}
